@@ -22,6 +22,7 @@ EXPLANATION = (
     "every concrete class (constructible without arguments), coverage of every persistent constructor field, rule "
     "keywords; no variable / rule block (classes with __len__) is used as a truth value anywhere in the package (T15); thorough tier also "
     "checks the 61 shipped .fll files against the extracted tables; every parameter of the exporter / importer methods is read (T16)"
+    "; FllImporter.engine is interpreted on nine model documents: every component of the text is processed once, in the order of the text, with its own lines (T13 flush)"
 )
 ASSUMPTIONS = [
     "representability of numbers at settings.decimals and numeric equality after re-import are not decided",
@@ -991,25 +992,97 @@ def line_syntax(check: Check) -> None:
     first_only = parts is not None and (kw.get("maxsplit") == ("const", 1) or (len(parts[2]) > 1 and parts[2][1] == ("const", 1)))
     check.require(first_only, "T13", "FllImporter.extract_key_value/first-colon", "a line is split at its first colon only, so values (descriptions, rule text) may contain colons"
                   if first_only else "the line is split at every colon: a description or term containing ':' is rejected or truncated on re-import", loc(fn))
-    # engine(): every block is processed, including the last one
-    fe = p.func("FllImporter.engine")
-    re_ = Resolver(p, fe)
-    cfg = re_.cfg
-    procs = [n for n, c in cfg.find_calls("._process")]
-    loops = [h for h in cfg.loop_heads() if h.kind == "for"]
-    inside = [n for n in procs if loops and n in cfg.loop_body(loops[0])]
-    after = [n for n in procs if loops and n not in cfg.lexical_body(loops[0]) and cfg.dominates(loops[0], n)]
-    from .common import early_exits
-
-    ok = bool(inside) and bool(after) and not (early_exits(cfg, loops[0]) if loops else True)
-    check.require(ok, "T13", "FllImporter.engine/flush", "each component block is processed when the next header arrives, and the last block after the loop" if ok else
-                  f"blocks processed inside the line loop: {len(inside)}, after it: {len(after)} - the last component of a document is dropped", loc(fe))
+    # engine(): every block is processed, with its own lines, in the order of the text - by interpretation on model documents
+    engine_blocks(check)
     sc = p.func("Operation.strip_comments")
     check.analysed(sc)
     src_ok = any(isinstance(x, ast.Call) and isinstance(x.func, ast.Attribute) and x.func.attr == "find" for x in ast.walk(sc.analysis_node))
     dflt = [q.default for q in sc.params if q.name == "delimiter"]
     ok = src_ok and bool(dflt) and isinstance(dflt[0], ast.Constant) and dflt[0].value == "#"
     check.require(ok, "T13", "Operation.strip_comments/hash", "text after `#` is a comment", loc(sc))
+
+
+def engine_blocks(check: Check) -> None:
+    """T13 flush [E on the model documents]: `FllImporter.engine` is interpreted (sa/absexec.py) on documents made of concrete `key: value` lines -
+    an Engine header, input / output variables, zero to three rule blocks, blank lines and comment-only lines, documents that end with a
+    variable instead of a rule block, an empty document - with `_process` replaced by a recorder. Specified: `_process` is called once per
+    component of the text, in the order of the text, with that component's kind and exactly its own lines (header first); comment-only and
+    blank lines are handed to nobody."""
+    from ..absexec import AbsExec, Internal, MObj, Opaque, Raised, Unknown, _Return
+
+    p = check.program
+    fe = p.func("FllImporter.engine")
+    check.analysed(fe)
+    node = fe.node
+    params = [a.arg for a in node.args.args]
+    HEAD = ("Engine", "InputVariable", "OutputVariable", "RuleBlock")
+    docs = []
+    eng = ["Engine: e", "  description: d"]
+    iv = ["InputVariable: a", "  enabled: true", "  range: 0 1"]
+    ov = ["OutputVariable: b", "  range: 0 1", "  default: nan"]
+    rb = lambda k: [f"RuleBlock: r{k}", "  enabled: true", f"  rule: if a is x then b is y{k}"]  # noqa: E731
+    for nrb in range(4):
+        docs.append(eng + iv + ov + [ln for k in range(nrb) for ln in rb(k)])
+    docs.append(eng + iv + [""] + ov + ["#c"] + rb(0) + ["", "#c"] + rb(1))
+    docs.append(eng + rb(0) + iv + ov)  # a rule block that is not last
+    docs.append(eng + rb(0) + iv + rb(1) + ov + rb(2))
+    docs.append(iv)  # a fragment without an Engine header
+    docs.append([])
+    bad: list[str] = []
+    proc = fe.cls.lookup("_process")
+    pnames = [q.name for q in proc.params[1:]] if proc is not None else ["component", "block", "engine"]
+
+    def bound_args(args: list, kw: dict) -> list:
+        out = list(args) + [kw[n_] for n_ in pnames[len(args):] if n_ in kw]
+        if len(out) < 2:
+            raise Unknown("FllImporter.engine: _process called without a component and its block")
+        return out
+
+    try:
+        for doc in docs:
+            log: list[tuple[str, list[str]]] = []
+            text = MObj("Text", {"lines": doc, "__bool__": bool(doc)})
+            hooks = {
+                "method:split": lambda ex_, e, recv, args, kw: list(recv.fields["lines"]) if isinstance(recv, MObj) and recv.cls == "Text" else
+                (_ for _ in ()).throw(Unknown("FllImporter.engine: split of something that is not the document")),
+                "method:splitlines": lambda ex_, e, recv, args, kw: list(recv.fields["lines"]),
+                "method:strip_comments": lambda ex_, e, recv, args, kw: "" if args[0].startswith("#") else args[0],
+                "method:strip": lambda ex_, e, recv, args, kw: recv.strip() if isinstance(recv, str) else Opaque("text"),
+                "method:extract_key_value": lambda ex_, e, recv, args, kw: tuple(x.strip() for x in (args[0].split(":", 1) + [""])[:2]),
+                "method:_process": lambda ex_, e, recv, args, kw: log.append((bound_args(args, kw)[0], list(bound_args(args, kw)[1]))),
+                "method:startswith": lambda ex_, e, recv, args, kw: recv.startswith(args[0]) if isinstance(recv, str) else False,
+            }
+            ex = AbsExec(fe.qualname, hooks, helpers={k: v for k, v in fe.cls.methods.items() if k.startswith("_") and k not in ("_process", "__init__")})
+            ex.globals = {"Engine": lambda ex_, e, args, kw: MObj("Engine", {"rule_blocks": [], "input_variables": [], "output_variables": []}), "Op": Opaque("Op")}
+            me = MObj("FllImporter", {"separator": "\n"})
+            try:
+                ex.block(list(node.body), {params[0]: me, params[1]: text})
+            except _Return:
+                pass
+            except (Raised, Internal) as err:
+                bad.append(f"document {doc!r:.80}: engine() ends with {err.cls}")
+                continue
+            want: list[tuple[str, list[str]]] = []
+            for ln in doc:
+                if not ln or ln.startswith("#"):
+                    continue
+                key = ln.split(":", 1)[0].strip()
+                if key in HEAD:
+                    want.append((key, [ln]))
+                elif want:
+                    want[-1][1].append(ln)
+            if log != want:
+                got_k, want_k = [f"{k} {b[0].split(':', 1)[1].strip() if b else ''}".strip() for k, b in log], [f"{k} {b[0].split(':', 1)[1].strip()}" for k, b in want]
+                if got_k != want_k:
+                    bad.append(f"a document with the components {want_k} is processed as {got_k}: components are dropped, repeated or taken out of the order of the text "
+                               "(rule blocks run in the order they are stored, so the imported engine computes something else)")
+                else:
+                    k_ = next(i_ for i_, (a_, b_) in enumerate(zip(log, want)) if a_ != b_)
+                    bad.append(f"component {want_k[k_]} is processed with the lines {log[k_][1]}, specified {want[k_][1]}")
+    except Unknown as u:
+        raise AnalysisError(str(u)) from None
+    check.require(not bad, "T13", "FllImporter.engine/flush", f"each component of the text is processed once, in the order of the text, with its own lines ({len(docs)} model documents)"
+                  if not bad else bad[0], loc(fe), {"documents": len(docs)}, exhaustive=True, cases=len(docs))
 
 
 # ------------------------------------------------------------------------------------------------ corpus (thorough)
